@@ -40,8 +40,9 @@ var c10Rewrites = func() []c10Rewrite {
 	out := []c10Rewrite{
 		{"IsExported", "", regexp.MustCompile(`!\(([^;]*?)\.IsExported\(\)\)`), `(${1}.PkgPath != "")`, "", "equivalent", "reflect.StructField.IsExported() is PkgPath == \"\" (go1.17 API)"},
 		{"base128-leading-0x80:guard", "parseBase128Int", nil, "", `!(((L1 == 0) && (P0[R1] == 128)))`, "ACCEPTANCE", "the fork predates the upstream check that a base-128 integer must not start with 0x80 (go1.19); the fork accepts such OIDs/tags"},
-		{"nil-target:guard", "UnmarshalWithParams", nil, "", `!(((reflect.ValueOf(P1).Kind() != 22) || reflect.ValueOf(P1).IsNil()))`, "api-misuse", "upstream returns invalidUnmarshalError for a nil / non-pointer target, the fork panics in reflect; independent of the input bytes"},
-		{"tag-parts-loop", "parseFieldParameters", c10Lit(`for((len(P0) > 0))`), `range(strings.Split(P0, ","))`, "", "equivalent", "strings.Cut loop (go1.20) and strings.Split visit the same parts; the empty string yields one empty part that matches no case"},
+		{"nil-target:guard", "UnmarshalWithParams", nil, "", `!((reflect.ValueOf(P1).Kind() != 22))`, "api-misuse", "upstream returns invalidUnmarshalError for a nil / non-pointer target (`if v.Kind() != Pointer || v.IsNil()`, one guard per disjunct in normal form), the fork panics in reflect; independent of the input bytes"},
+		{"nil-target:guard", "UnmarshalWithParams", nil, "", `!(reflect.ValueOf(P1).IsNil())`, "api-misuse", "second disjunct of the same guard"},
+		{"tag-parts-loop", "parseFieldParameters", c10Lit(`for((len(P0) != 0))`), `range(strings.Split(P0, ","))`, "", "equivalent", "strings.Cut loop (go1.20) and strings.Split visit the same parts; the empty string yields one empty part that matches no case"},
 		{"generalizedtime-fraction", "parseGeneralizedTime", c10Lit(`"20060102150405.999999999Z0700"`), `"20060102150405Z0700"`, "", "ACCEPTANCE", "the fork predates upstream's acceptance of fractional seconds in GeneralizedTime (go1.15); the fork rejects them"},
 		{"sequence-tag-mismatch-text", "parseSequenceOf", c10Lit(`StructuralError{"sequence tag mismatch"}`), `StructuralError{fmt.Sprintf("sequence tag mismatch (got:%+v, want:0/%d/%t)", L4, L6, L5)}`, "", "diagnostic", "richer message, same condition"},
 		{"set-of-sorting:guard", "makeBody", nil, "", `!(P1.set)`, "marshal", "upstream sorts SET OF elements on marshal (go1.15 setEncoder), the fork keeps the given order"},
@@ -56,7 +57,7 @@ var c10Rewrites = func() []c10Rewrite {
 
 var c10Allows = []c10Allow{
 	{"base128-leading-0x80", "parseBase128Int", "upstream", `err SyntaxError{"integer is not minimally encoded"}*`, "ACCEPTANCE", "see base128-leading-0x80:guard"},
-	{"base128-leading-0x80", "parseBase128Int", "upstream", `ret ·  WHEN  *((L1 == 0) && (P0[R1] == 128))*`, "ACCEPTANCE", "see base128-leading-0x80:guard"},
+	{"base128-leading-0x80", "parseBase128Int", "upstream", `ret ·  WHEN  *; (L1 == 0) ; (P0[R1] == 128) ;*`, "ACCEPTANCE", "see base128-leading-0x80:guard"},
 	{"time-case-returns", "parseField", "upstream", `ret ·  WHEN  *(L8 == 23)*`, "equivalent", "time.Time case: upstream returns inside each branch (UTCTime / GeneralizedTime), the fork assigns in both branches and returns once; the two parse calls are matched under their conditions"},
 	{"time-case-returns", "parseField", "fork", `ret ·  WHEN  *sw(P0.Type())∈{timeType}*`, "equivalent", "same"},
 	{"nil-target", "UnmarshalWithParams", "upstream", `err invalidUnmarshalError{*`, "api-misuse", "see nil-target:guard"},
@@ -111,6 +112,9 @@ func c10R3(r *Run, li *c10LaxInfo) {
 			why, ok := c10FuncsOnly[side+":"+k]
 			r.Check("only-"+side+":"+k, ok, "-", "function exists on the "+side+" side only: "+why)
 		}
+	}
+	for _, k := range res.FuncsUnreferenced {
+		r.Pass("unreferenced:"+k, "-", "unexported function on the fork side only that nothing refers to (dead code, not part of the strict residual)")
 	}
 	// apply the rewrites to the unmatched upstream sites, then re-match
 	used := map[string]int{}
@@ -289,17 +293,18 @@ type c10ItemAllow struct {
 // applied to upstream items (after the textual rewrites of c10Rewrites)
 var c10ItemRewrites = []c10Rewrite{
 	{"IsExported", "", regexp.MustCompile(`!\((.*)\.IsExported\(\)\)`), `("" != ${1}.PkgPath)`, "", "equivalent", "reflect.StructField.IsExported() is PkgPath == \"\" (go1.17 API)"},
-	{"tag-parts-loop", "parseFieldParameters", c10Lit(`for((0 < len(P0)))`), `range(strings.Split(P0, ","))`, "", "equivalent", "strings.Cut loop (go1.20) and strings.Split visit the same parts"},
+	{"tag-parts-loop", "parseFieldParameters", c10Lit(`for((0 != len(P0)))`), `range(strings.Split(P0, ","))`, "", "equivalent", "strings.Cut loop (go1.20) and strings.Split visit the same parts"},
 }
 
 var c10ItemAllows = []c10ItemAllow{
 	{"base128-leading-0x80", "parseBase128Int", "upstream", `cond ((0 == L1) && (128 == P0[R1]))`, 1, "ACCEPTANCE", "condition of the minimality check the fork lacks (see drift:base128-leading-0x80:guard)"},
-	{"nil-target", "UnmarshalWithParams", "upstream", `cond ((22 != reflect.ValueOf(P1).Kind()) || reflect.ValueOf(P1).IsNil())`, 1, "api-misuse", "condition of upstream's invalidUnmarshalError (see drift:nil-target:guard)"},
+	{"nil-target", "UnmarshalWithParams", "upstream", `cond (22 != reflect.ValueOf(P1).Kind())`, 1, "api-misuse", "condition of upstream's invalidUnmarshalError (see drift:nil-target:guard; one item per disjunct of a leaving `if a || b`)"},
+	{"nil-target", "UnmarshalWithParams", "upstream", `cond reflect.ValueOf(P1).IsNil()`, 1, "api-misuse", "same, second disjunct"},
 	{"set-of-sorting", "makeBody", "upstream", `cond P1.set`, 1, "marshal", "upstream chooses the sorting setEncoder for SET OF (see drift:set-of-sorting:guard)"},
 	{"set-type-name", "makeField", "upstream", `cond ((17 == L1) && !(P1.set))`, 1, "marshal", "upstream (go1.15) turns on params.set for slice types named …SET so that they are sorted on marshal; the fork has no sorting, so nothing to turn on"},
 	{"set-type-name", "makeField", "upstream", `asgn P1.set = true`, 1, "marshal", "same"},
 	{"tag-parts-loop", "parseFieldParameters", "upstream", `asgn L1, P0, _ = strings.Cut(P0, ",")`, 1, "equivalent", "upstream advances through the tag string with strings.Cut, the fork ranges over strings.Split"},
-	{"lax-tag", "parseFieldParameters", "fork", `cond sw()∈{("lax" == L1)}`, 1, "documented", "the fork's \"lax\" tag part (C10.R1:tag-lax checks what it does)"},
+	{"lax-tag", "parseFieldParameters", "fork", `cond ("lax" == L1)`, 1, "documented", "the fork's \"lax\" tag part (C10.R1:tag-lax checks what it does)"},
 	{"err1-style", "parseField", "fork", `cond (L1 == nil)`, 3, "equivalent", "the fork stores through reflect only when the parse succeeded (OID, BIT STRING, time: `if err1 == nil { v.Set(…) }; err = err1`) where upstream assigns value and error in one statement; the error is returned either way (sites match)"},
 	{"error-text", "(StructuralError).Error", "fork", `cond ("" != RCV.Field)`, 1, "diagnostic", "the fork prefixes the field name"},
 	{"error-text", "(StructuralError).Error", "fork", `asgn L1 = (RCV.Field + ": ")`, 1, "diagnostic", "same"},
